@@ -20,6 +20,7 @@ import (
 	"go.minekube.com/gate/pkg/edition/java/proto/packet"
 	cfgpacket "go.minekube.com/gate/pkg/edition/java/proto/packet/config"
 	"go.minekube.com/gate/pkg/edition/java/proto/state"
+	"go.minekube.com/gate/pkg/edition/java/proto/util"
 	"go.minekube.com/gate/pkg/edition/java/proto/version"
 	"go.minekube.com/gate/pkg/edition/java/proxy/zzverif/e2e"
 	"go.minekube.com/gate/pkg/gate/proto"
@@ -248,9 +249,16 @@ func (c *kPeer) clientLogin(name, host string) error {
 	c.clientHandshake(host, 2)
 	p := e2e.PutVarInt(nil, 0)
 	p = kString(p, name)
-	if kitConfigPhase(c.protocol) {
+	switch {
+	case kitConfigPhase(c.protocol): // 1.20.2+: name, uuid
 		id := uuid.OfflinePlayerUUID(name)
 		p = append(p, id[:]...)
+	case c.protocol.GreaterEqual(version.Minecraft_1_19_3): // name, optional uuid
+		p = append(p, 0)
+	case c.protocol.GreaterEqual(version.Minecraft_1_19_1): // name, optional key, optional uuid
+		p = append(p, 0, 0)
+	case c.protocol.GreaterEqual(version.Minecraft_1_19): // name, optional key
+		p = append(p, 0)
 	}
 	c.sendPayload(p)
 	synctest.Wait()
@@ -315,6 +323,9 @@ func kitJoinGame(protocol proto.Protocol, entityID int) *packet.JoinGame {
 	if protocol.GreaterEqual(version.Minecraft_1_16) {
 		j.LevelNames = []string{"minecraft:overworld"}
 		j.DimensionInfo = &packet.DimensionInfo{RegistryIdentifier: "minecraft:overworld", LevelName: &lvl}
+		// 1.16-1.20.1 carry the registry (and 1.16.2-1.18.2 the current dimension) as NBT: empty compounds
+		j.Registry = util.CompoundBinaryTag{Type: 10, Data: []byte{0}}
+		j.CurrentDimensionData = util.CompoundBinaryTag{Type: 10, Data: []byte{0}}
 	}
 	return j
 }
